@@ -70,7 +70,7 @@ def norm_kv(kv):
     return [(k - a) / (b - a) for k in kv]
 
 
-def same_definition(ctx, a_snap, b, fmt, tol_rel, normalized_import=True):
+def same_definition(ctx, a_snap, b, fmt, tol_rel, normalized_import=False):
     """a_snap: snapshot of the original; b: re-imported object. Rational-ness may change (B-spline comes back with unit weights)."""
     bs = G.snapshot(b)
     if not ctx.check(bs['pdim'] == a_snap['pdim'] and bs['degrees'] == a_snap['degrees'] and bs['sizes'] == a_snap['sizes'],
@@ -130,24 +130,29 @@ def check(case, ctx):
     trims = []
     if case['trims']:
         ctx.tag('trims')
+        (ua, ub), (va, vb) = G.domains_of(o)
+
+        def M(pts):
+            # trim curves live in the parameter space of the surface: unit-square templates are mapped onto its domain
+            return [[ua + (ub - ua) * x, va + (vb - va) * y] for x, y in pts]
         ff = freeform.Freeform()
-        ff.evaluate(points=[[0.3, 0.3], [0.7, 0.3], [0.7, 0.7], [0.3, 0.7], [0.3, 0.3]])
+        ff.evaluate(points=M([[0.3, 0.3], [0.7, 0.3], [0.7, 0.7], [0.3, 0.7], [0.3, 0.3]]))
         c2 = BSpline.Curve()
         c2.degree = 2
-        c2.ctrlpts = [[0.2, 0.2], [0.8, 0.2], [0.5, 0.8], [0.2, 0.2]]
+        c2.ctrlpts = M([[0.2, 0.2], [0.8, 0.2], [0.5, 0.8], [0.2, 0.2]])
         c2.knotvector = knotvector.generate(2, 4)
         c2.opt = ['reversed', 1]
         c3 = BSpline.Curve()
         c3.degree = 1
-        c3.ctrlpts = [[0.1, 0.1], [0.4, 0.1], [0.1, 0.4], [0.1, 0.1]]
+        c3.ctrlpts = M([[0.1, 0.1], [0.4, 0.1], [0.1, 0.4], [0.1, 0.1]])
         c3.knotvector = knotvector.generate(1, 4)
         c4 = BSpline.Curve()
         c4.degree = 2
-        c4.ctrlpts = [[0.6, 0.6], [0.9, 0.6], [0.75, 0.9], [0.6, 0.6]]
+        c4.ctrlpts = M([[0.6, 0.6], [0.9, 0.6], [0.75, 0.9], [0.6, 0.6]])
         c4.knotvector = knotvector.generate(2, 4)
         c5 = BSpline.Curve()
         c5.degree = 1
-        c5.ctrlpts = [[0.05, 0.6], [0.2, 0.6], [0.2, 0.8], [0.05, 0.6]]
+        c5.ctrlpts = M([[0.05, 0.6], [0.2, 0.6], [0.2, 0.8], [0.05, 0.6]])
         c5.knotvector = knotvector.generate(1, 4)
         cc = multi.CurveContainer(*([c3, c4, c5][:rng.randint(1, 3)]))
         trims = [ff, c2, cc]
@@ -168,6 +173,18 @@ def check(case, ctx):
         ctx.check(da == db, 'json/delta', 'JSON round trip changed the sampling density %r -> %r' % (da, db), what='json')
         if trims:
             rt = r.trims
+            # the trims are in the parameter space of the surface they came back with
+            (ua2, ub2), (va2, vb2) = G.domains_of(r)
+            eps = 1e-9 * max(1.0, abs(ub2 - ua2), abs(vb2 - va2))
+
+            def tpts(t):
+                if t.type == 'container':
+                    return [p for e in t for p in tpts(e)]
+                return [list(p) for p in (t.evalpts if t.type == 'freeform' else t.ctrlpts)]
+            inside = all(ua2 - eps <= p[0] <= ub2 + eps and va2 - eps <= p[1] <= vb2 + eps for t in rt for p in tpts(t))
+            ctx.check(inside, 'json/trims-outside-domain', 'after the JSON round trip the trim curves (inside the domain %r x %r when exported) '
+                      'have points outside the domain %r x %r of the imported surface' % ((ua, ub), (va, vb), (ua2, ub2), (va2, vb2)),
+                      what='trims')
             ok = len(rt) == len(trims) and [t.type for t in rt] == [t.type for t in trims]
             ctx.check(ok, 'json/trims-types', 'trim curves came back as %r, exported %r' % ([t.type for t in rt], [t.type for t in trims]),
                       what='trims')
